@@ -11,6 +11,7 @@ import (
 	"encoding/json"
 	"fmt"
 	"io"
+	"log"
 	"mime"
 	"mime/multipart"
 	"net/http"
@@ -60,7 +61,9 @@ type InputCase struct {
 	OpClient             bool     `json:"op_client"`
 	OpClientNilTransport bool     `json:"op_client_nil_transport,omitempty"` // the operation's client has no Transport of its own: http.DefaultTransport carries the request
 	OpCtx                bool     `json:"op_ctx"`
-	RtCtx                string   `json:"rt_ctx"` // "set" | "nil"
+	Debug                bool     `json:"debug,omitempty"`      // the transport dumps requests and responses (Runtime.Debug)
+	BodyFault            string   `json:"body_fault,omitempty"` // scripted failure of the response body stream
+	RtCtx                string   `json:"rt_ctx"`               // "set" | "nil"
 	Default              string   `json:"default_media_type"`
 	Headers              []string `json:"-"`
 }
@@ -116,12 +119,59 @@ func registry(name string) map[string]runtime.Consumer {
 type ctxKey string
 
 type stubRT struct {
-	name   string
-	status int
-	header http.Header
-	body   string
-	seen   *http.Request
-	ctxTag string
+	name      string
+	status    int
+	header    http.Header
+	body      string
+	bodyFault string // "", "read-error-once@1", "read-error-once@2", "read-error-sticky@2", "close-error"
+	seen      *http.Request
+	ctxTag    string
+}
+
+type silentLogger struct{}
+
+func (silentLogger) Printf(string, ...interface{}) {}
+func (silentLogger) Debugf(string, ...interface{}) {}
+
+// faultyBody delivers the response body two bytes at a time and fails as scripted.
+type faultyBody struct {
+	data   []byte
+	pos    int
+	reads  int
+	fault  string
+	failed bool
+}
+
+var errBody = fmt.Errorf("injected response body error")
+
+func (b *faultyBody) Read(p []byte) (int, error) {
+	b.reads++
+	switch {
+	case b.fault == "read-error-once@1" && b.reads == 1, b.fault == "read-error-once@2" && b.reads == 2:
+		return 0, errBody
+	case b.fault == "read-error-sticky@2" && b.reads >= 2:
+		return 0, errBody
+	}
+	if b.pos >= len(b.data) {
+		return 0, io.EOF
+	}
+	n := 2
+	if n > len(b.data)-b.pos {
+		n = len(b.data) - b.pos
+	}
+	if n > len(p) {
+		n = len(p)
+	}
+	copy(p, b.data[b.pos:b.pos+n])
+	b.pos += n
+	return n, nil
+}
+
+func (b *faultyBody) Close() error {
+	if b.fault == "close-error" {
+		return errBody
+	}
+	return nil
 }
 
 func (s *stubRT) RoundTrip(req *http.Request) (*http.Response, error) {
@@ -139,7 +189,7 @@ func (s *stubRT) RoundTrip(req *http.Request) (*http.Response, error) {
 	return &http.Response{
 		StatusCode: s.status, Status: fmt.Sprintf("%d %s", s.status, http.StatusText(s.status)),
 		Proto: "HTTP/1.1", ProtoMajor: 1, ProtoMinor: 1,
-		Header: s.header.Clone(), Body: io.NopCloser(strings.NewReader(s.body)), Request: req,
+		Header: s.header.Clone(), Body: &faultyBody{data: []byte(s.body), fault: s.bodyFault}, Request: req,
 	}, nil
 }
 
@@ -150,6 +200,7 @@ type seenResp struct {
 	one      string
 	multi    []string
 	body     string
+	readErr  error
 	called   bool
 }
 
@@ -166,8 +217,12 @@ func checkInput(c InputCase) (class, what string) {
 	hdr["X-One"] = []string{"single"}
 	hdr["X-Multi"] = []string{"m1", "m2"}
 	body := "BODY-" + fmt.Sprint(c.Status)
-	tStub := &stubRT{name: "transport", status: c.Status, header: hdr, body: body}
-	oStub := &stubRT{name: "operation", status: c.Status, header: hdr, body: body}
+	tStub := &stubRT{name: "transport", status: c.Status, header: hdr, body: body, bodyFault: c.BodyFault}
+	oStub := &stubRT{name: "operation", status: c.Status, header: hdr, body: body, bodyFault: c.BodyFault}
+	rt.Debug = c.Debug
+	if c.Debug {
+		rt.SetLogger(silentLogger{}) // the dumps go to this logger
+	}
 	rt.Transport = tStub
 	switch c.RtCtx {
 	case "set":
@@ -190,8 +245,8 @@ func checkInput(c InputCase) (class, what string) {
 			}
 			seen.code, seen.msg = resp.Code(), resp.Message()
 			seen.one, seen.multi = resp.GetHeader("X-One"), resp.GetHeaders("X-Multi")
-			b, _ := io.ReadAll(resp.Body())
-			seen.body = string(b)
+			b, rerr := io.ReadAll(resp.Body())
+			seen.body, seen.readErr = string(b), rerr
 			return "result", nil
 		}),
 	}
@@ -258,7 +313,7 @@ func checkInput(c InputCase) (class, what string) {
 		ctText = c.CT.Header[0]
 	}
 	allowed := map[string]bool{} // consumer ids that may be handed over
-	mayErr := false
+	mayErr := c.BodyFault != ""  // a response whose body stream fails may fail the call
 	if c.CT.Malform {
 		mayErr = true
 		if hasAny {
@@ -293,7 +348,7 @@ func checkInput(c InputCase) (class, what string) {
 		if !mayErr {
 			return "unexpected-error", fmt.Sprintf("Submit failed: %v; expected consumer in %v", err, keys(allowed))
 		}
-		if !c.CT.Malform && ctText != "" && !strings.Contains(err.Error(), strings.TrimSpace(ctText)) && !strings.Contains(strings.ToLower(err.Error()), media) {
+		if c.BodyFault == "" && !c.CT.Malform && ctText != "" && !strings.Contains(err.Error(), strings.TrimSpace(ctText)) && !strings.Contains(strings.ToLower(err.Error()), media) {
 			return "error-does-not-name-content-type", fmt.Sprintf("error %q does not name the content type %q", err, ctText)
 		}
 		return "", "error: " + err.Error()
@@ -310,8 +365,15 @@ func checkInput(c InputCase) (class, what string) {
 	if seen.one != "single" || !reflect.DeepEqual(seen.multi, []string{"m1", "m2"}) {
 		return "headers-changed", fmt.Sprintf("reader saw X-One=%q X-Multi=%v", seen.one, seen.multi)
 	}
+	if seen.readErr != nil {
+		// the stream failed in the reader's hands: it saw the response as it is
+		if c.BodyFault == "" {
+			return "body-changed", fmt.Sprintf("reader got a read error %v from a body that does not fail", seen.readErr)
+		}
+		return "", "consumer " + seen.consumer + " (body stream failed in the reader's hands)"
+	}
 	if seen.body != body {
-		return "body-changed", fmt.Sprintf("reader read body %q, want %q", seen.body, body)
+		return "body-changed", fmt.Sprintf("reader read body %q without any error, the response body is %q (debug=%v, body fault %q)", seen.body, body, c.Debug, c.BodyFault)
 	}
 	if res != "result" {
 		return "result-changed", fmt.Sprintf("Submit returned %v", res)
@@ -624,6 +686,7 @@ func racePass() {
 // ---------- main ----------
 
 func main() {
+	log.SetOutput(io.Discard) // Runtime.Debug dumps through the standard logger
 	http.DefaultTransport = defaultStub{}
 	sched.WorkerMain(exploreScenario)
 	if len(os.Args) > 1 && os.Args[1] == "racepass" {
@@ -695,6 +758,20 @@ func main() {
 								}
 							}
 						}
+					}
+				}
+			}
+		}
+	}
+	for _, ct := range []ctKind{{Header: []string{"application/json"}, Media: "application/json", Exact: true}, {Header: []string{"text/plain; charset=utf-8"}, Media: "text/plain", Exact: true}, {Header: nil, Media: "<default>", Exact: true}} {
+		for _, dbg := range []bool{false, true} {
+			for _, bf := range []string{"", "read-error-once@1", "read-error-once@2", "read-error-sticky@2", "close-error"} {
+				for _, st := range statuses {
+					for _, oc := range []bool{false, true} {
+						if !dbg && bf == "" {
+							continue
+						}
+						cases = append(cases, InputCase{Kind: "input", CT: ct, Registry: "default", Status: st, OpClient: oc, RtCtx: "set", Debug: dbg, BodyFault: bf})
 					}
 				}
 			}
